@@ -188,7 +188,7 @@ func c07Oracle(c corr.Case, impl []string) (string, int) {
 				return "openfile requesting write access did not fail with a permission error: " + impl[i], i
 			}
 		}
-		if (t[0] == "h.write" || t[0] == "h.writeat") && !strings.Contains(impl[i], "#SRC") && strings.HasPrefix(impl[i], "n=") && !strings.HasPrefix(impl[i], "n=0 ") {
+		if (t[0] == "h.write" || t[0] == "h.writestring" || t[0] == "h.writeat") && !strings.Contains(impl[i], "#SRC") && strings.HasPrefix(impl[i], "n=") && !strings.HasPrefix(impl[i], "n=0 ") {
 			return "a write through a handle returned by the wrapper reported bytes written: " + impl[i], i
 		}
 	}
@@ -230,7 +230,7 @@ func c07HandleOps(hi int) []string {
 		fmt.Sprintf("h.read %d 3", hi), fmt.Sprintf("h.write %d 5858", hi), fmt.Sprintf("h.writeat %d 5959 1", hi),
 		fmt.Sprintf("h.trunc %d 0", hi), fmt.Sprintf("h.trunc %d 9", hi), fmt.Sprintf("h.seek %d 1 0", hi), fmt.Sprintf("h.readat %d 4 0", hi),
 		fmt.Sprintf("h.stat %d", hi), fmt.Sprintf("h.readdirnames %d -1", hi), fmt.Sprintf("h.sync %d", hi), fmt.Sprintf("h.close %d", hi),
-		fmt.Sprintf("h.write %d 5a", hi),
+		fmt.Sprintf("h.write %d 5a", hi), fmt.Sprintf("h.writestring %d 5753", hi),
 	}
 }
 
@@ -320,7 +320,7 @@ func C07() *corr.Engine {
 				if (t[0] == "openfile" || t[0] == "open") && strings.HasPrefix(impl[i], "h=") {
 					opened = true
 				}
-				if opened && (t[0] == "h.write" || t[0] == "h.writeat" || t[0] == "h.trunc") {
+				if opened && (t[0] == "h.write" || t[0] == "h.writestring" || t[0] == "h.writeat" || t[0] == "h.trunc") {
 					return true
 				}
 			}
